@@ -61,7 +61,45 @@ type ProjectRunner struct {
 }
 
 func (p *ProjectRunner) GetLexicographicProcessNames() ([]string, error) {
+	p.procConfMutex.Lock()
+	defer p.procConfMutex.Unlock()
 	return p.project.GetLexicographicProcessNames()
+}
+
+// The process configuration map is read by every API request and written by
+// scale / update requests: all access goes through procConfMutex.
+
+func (p *ProjectRunner) getProcessConfig(name string) (types.ProcessConfig, bool) {
+	p.procConfMutex.Lock()
+	defer p.procConfMutex.Unlock()
+	procConf, ok := p.project.Processes[name]
+	return procConf, ok
+}
+
+func (p *ProjectRunner) setProcessConfig(procConf types.ProcessConfig) {
+	p.procConfMutex.Lock()
+	defer p.procConfMutex.Unlock()
+	p.project.Processes[procConf.ReplicaName] = procConf
+}
+
+func (p *ProjectRunner) getProcessNames() []string {
+	p.procConfMutex.Lock()
+	defer p.procConfMutex.Unlock()
+	names := make([]string, 0, len(p.project.Processes))
+	for name := range p.project.Processes {
+		names = append(names, name)
+	}
+	return names
+}
+
+func (p *ProjectRunner) getProcessConfigs() []types.ProcessConfig {
+	p.procConfMutex.Lock()
+	defer p.procConfMutex.Unlock()
+	procConfs := make([]types.ProcessConfig, 0, len(p.project.Processes))
+	for _, procConf := range p.project.Processes {
+		procConfs = append(procConfs, procConf)
+	}
+	return procConfs
 }
 
 func (p *ProjectRunner) init() {
@@ -85,6 +123,7 @@ func (p *ProjectRunner) Run() error {
 	}
 	p.doneProcMutex.Unlock()
 	runOrder := []types.ProcessConfig{}
+	p.procConfMutex.Lock()
 	err := p.project.WithProcesses([]string{}, func(process types.ProcessConfig) error {
 		if process.IsDeferred() {
 			return nil
@@ -92,6 +131,7 @@ func (p *ProjectRunner) Run() error {
 		runOrder = append(runOrder, process)
 		return nil
 	})
+	p.procConfMutex.Unlock()
 	if err != nil {
 		return fmt.Errorf("failed to build project run order: %e", err)
 	}
@@ -307,7 +347,7 @@ func (p *ProjectRunner) GetProcessesState() (*types.ProcessesState, error) {
 	states := &types.ProcessesState{
 		States: make([]types.ProcessState, 0),
 	}
-	for name := range p.project.Processes {
+	for _, name := range p.getProcessNames() {
 		state, err := p.GetProcessState(name)
 		if err != nil {
 			return nil, err
@@ -319,7 +359,7 @@ func (p *ProjectRunner) GetProcessesState() (*types.ProcessesState, error) {
 }
 
 func (p *ProjectRunner) getProcessesStateData(filter filterFn) error {
-	for name := range p.project.Processes {
+	for _, name := range p.getProcessNames() {
 		err := p.getProcessStateData(name, filter)
 		if err != nil {
 			return err
@@ -387,7 +427,7 @@ func (p *ProjectRunner) StartProcess(name string) error {
 		return fmt.Errorf("process %s is already running", name)
 	}
 	verifYield("start.afterCheck", name)
-	if processConfig, ok := p.project.Processes[name]; ok {
+	if processConfig, ok := p.getProcessConfig(name); ok {
 		p.runProcess(&processConfig)
 	} else {
 		return fmt.Errorf("no such process: %s", name)
@@ -400,7 +440,7 @@ func (p *ProjectRunner) StopProcess(name string) error {
 	log.Info().Msgf("Stopping %s", name)
 	proc := p.getRunningProcess(name)
 	if proc == nil {
-		if _, ok := p.project.Processes[name]; !ok {
+		if _, ok := p.getProcessConfig(name); !ok {
 			log.Error().Msgf("Process %s does not exist", name)
 			return fmt.Errorf("process %s does not exist", name)
 		}
@@ -453,7 +493,7 @@ func (p *ProjectRunner) RestartProcess(name string) error {
 	}
 	verifYield("restart.afterStop", name)
 
-	if processConfig, ok := p.project.Processes[name]; ok {
+	if processConfig, ok := p.getProcessConfig(name); ok {
 		p.runProcess(&processConfig)
 	} else {
 		return fmt.Errorf("no such process: %s", name)
@@ -462,9 +502,7 @@ func (p *ProjectRunner) RestartProcess(name string) error {
 }
 
 func (p *ProjectRunner) GetProcessInfo(name string) (*types.ProcessConfig, error) {
-	p.runProcMutex.Lock()
-	defer p.runProcMutex.Unlock()
-	if processConfig, ok := p.project.Processes[name]; ok {
+	if processConfig, ok := p.getProcessConfig(name); ok {
 		return &processConfig, nil
 	} else {
 		return nil, fmt.Errorf("no such process: %s", name)
@@ -605,12 +643,14 @@ func (p *ProjectRunner) ShutDownProject() error {
 
 	shutdownOrder := []*Process{}
 	if p.isOrderedShutDown {
+		p.procConfMutex.Lock()
 		err := p.project.WithProcesses([]string{}, func(process types.ProcessConfig) error {
 			if runningProc, ok := p.runningProcesses[process.ReplicaName]; ok {
 				shutdownOrder = append(shutdownOrder, runningProc)
 			}
 			return nil
 		})
+		p.procConfMutex.Unlock()
 		if err != nil {
 			log.Error().Msgf("Failed to build project run order: %s", err.Error())
 		}
@@ -707,7 +747,7 @@ func (p *ProjectRunner) ScaleProcess(name string, scale int) error {
 		log.Err(err).Msg("scale failed")
 		return err
 	}
-	if processConfig, ok := p.project.Processes[name]; ok {
+	if processConfig, ok := p.getProcessConfig(name); ok {
 		origScale := p.getCurrentReplicaCount(processConfig.Name)
 		scaleDelta := scale - origScale
 		if scaleDelta < 0 {
@@ -729,7 +769,7 @@ func (p *ProjectRunner) ScaleProcess(name string, scale int) error {
 
 func (p *ProjectRunner) getCurrentReplicaCount(name string) int {
 	counter := 0
-	for _, proc := range p.project.Processes {
+	for _, proc := range p.getProcessConfigs() {
 		if proc.Name == name {
 			counter++
 		}
@@ -791,10 +831,10 @@ func (p *ProjectRunner) scaleDownProcess(name string, scale int) {
 }
 
 func (p *ProjectRunner) updateReplicaCount(name string, scale int) {
-	for _, proc := range p.project.Processes {
+	for _, proc := range p.getProcessConfigs() {
 		if proc.Name == name {
 			proc.Replicas = scale
-			p.project.Processes[proc.ReplicaName] = proc
+			p.setProcessConfig(proc)
 			if proc.ReplicaName != proc.CalculateReplicaName() {
 				p.renameProcess(proc.ReplicaName, proc.CalculateReplicaName())
 			}
@@ -821,12 +861,14 @@ func (p *ProjectRunner) renameProcess(name string, newName string) {
 		state.Name = newName
 		p.processStates[newName] = state
 	}
+	p.procConfMutex.Lock()
 	procConf, ok := p.project.Processes[name]
 	if ok {
 		delete(p.project.Processes, name)
 		procConf.ReplicaName = newName
 		p.project.Processes[newName] = procConf
 	}
+	p.procConfMutex.Unlock()
 }
 func (p *ProjectRunner) removeProcessLogs(name string) *pclog.ProcessLogBuffer {
 	p.logsMutex.Lock()
@@ -861,7 +903,7 @@ func (p *ProjectRunner) addProcessAndRun(proc types.ProcessConfig) {
 	p.statesMutex.Lock()
 	p.processStates[proc.ReplicaName] = types.NewProcessState(&proc)
 	p.statesMutex.Unlock()
-	p.project.Processes[proc.ReplicaName] = proc
+	p.setProcessConfig(proc)
 	p.initProcessLog(proc.ReplicaName)
 	if !proc.IsDeferred() {
 		p.runProcess(&proc)
@@ -930,7 +972,7 @@ func (p *ProjectRunner) GetDependenciesOrderNames() ([]string, error) {
 
 func (p *ProjectRunner) GetProjectState(checkMem bool) (*types.ProjectState, error) {
 	runningProcesses := 0
-	for name := range p.project.Processes {
+	for _, name := range p.getProcessNames() {
 		state, err := p.GetProcessState(name)
 		if err != nil {
 			return nil, err
@@ -1013,7 +1055,7 @@ func (p *ProjectRunner) UpdateProject(project *types.Project) (map[string]string
 	delProcs := make(map[string]types.ProcessConfig)
 	updatedProcs := make(map[string]types.ProcessConfig)
 	for name, newProc := range project.Processes {
-		if currentProc, ok := p.project.Processes[name]; ok {
+		if currentProc, ok := p.getProcessConfig(name); ok {
 			equal := currentProc.Compare(&newProc)
 			if equal {
 				log.Debug().Msgf("Process %s is up to date", name)
@@ -1026,7 +1068,8 @@ func (p *ProjectRunner) UpdateProject(project *types.Project) (map[string]string
 			newProcs[name] = newProc
 		}
 	}
-	for name, currentProc := range p.project.Processes {
+	for _, currentProc := range p.getProcessConfigs() {
+		name := currentProc.ReplicaName
 		if _, ok := project.Processes[name]; !ok {
 			log.Debug().Msgf("Process %s is deleted", name)
 			delProcs[name] = currentProc
@@ -1089,7 +1132,7 @@ func (p *ProjectRunner) UpdateProcess(updated *types.ProcessConfig) error {
 	validateProbes(updated.LivenessProbe)
 	validateProbes(updated.ReadinessProbe)
 	updated.AssignProcessExecutableAndArgs(p.project.ShellConfig, p.project.ShellConfig.ElevatedShellArg)
-	if currentProc, ok := p.project.Processes[updated.ReplicaName]; ok {
+	if currentProc, ok := p.getProcessConfig(updated.ReplicaName); ok {
 		equal := currentProc.Compare(updated)
 		if equal {
 			log.Debug().Msgf("Process %s is up to date", updated.Name)
